@@ -194,9 +194,9 @@ FUNCS = ['solver.solve', 'solver.OptimResults', 'util.apply_scaling', 'util.remo
 
 def outer_harnesses(tier, seed, pid):
     hs = []
-    combos = [(1, 1, False, False, True), (1, 1, True, True, True)] if tier == 'quick' else \
+    combos = [(1, 1, False, False, True), (1, 1, True, True, True), (1, 1, False, True, False)] if tier == 'quick' else \
         [(1, 1, False, False, True), (1, 1, True, True, True), (2, 1, True, True, True), (1, 2, False, True, True),
-         (2, 2, False, False, False), (1, 1, True, True, False)]
+         (2, 2, False, False, False), (1, 1, True, True, False), (1, 1, False, True, False), (2, 1, False, True, False)]
     for (n, m, scaling, bounds, restarts) in combos:
         variants = [(True, False)] if tier == 'quick' else [(True, False), (False, False), (True, True)]
         for (old_rk, inc) in (variants if restarts else [(True, False)]):
